@@ -11,6 +11,7 @@ TRANSLATORS = [  # (script, output argument, files it writes, fatal for everyone
     ('rs2v.py', os.path.join(COQ, 'Generated'), ['Generated/Curve.v'], False),
     ('rs2v_gadgets.py', os.path.join(COQ, 'Generated'), ['Generated/GadgetsGen.v'], False),
     ('rs2v_dep.py', os.path.join(COQ, 'Generated'), ['Generated/Dep.v'], False),
+    ('rs2v_fiat.py', os.path.join(COQ, 'Generated'), ['Generated/FiatFq.v', 'Generated/FiatFr.v', 'Generated/FiatFp.v'], False),
 ]
 LAST_TRANSLATION_ERRORS = []
 
